@@ -102,6 +102,88 @@ theorem solveT_cells_frame_no_offset (W : C → Prop) (w : World σ) (h0 : o.off
   · intro u k h; rw [heval u k c hc]; exact h
   · intro u k h; rw [hafter]; exact h
 
+/-! ### The frame of a parser-built model, with nothing assumed about its passes -/
+
+/-- A parser-built model as an interpretation: its evaluation pass is `runPass` of the generated statements (the same
+    statements at every pass), its hooks are `pass`, the offset copy writes the endogenous cells of period `t`. -/
+def generated (S : Cells σ C X) (stmts : List (Assign σ C X)) (endoCell : List (Int → C))
+    (copy : σ → Int → Int → σ) (lags leads : Nat) (check : σ → Int → V) (allFinite : V → Bool)
+    (close : V → V → Bool) (zeroNF : V → V) : Interp σ V where
+  lags := lags
+  leads := leads
+  check := check
+  allFinite := allFinite
+  close := close
+  zeroNF := zeroNF
+  copyOffset := copy
+  before _ u _ := (u, false)
+  eval _ u t _ := runPass S t stmts u
+  after _ u _ _ := (u, false)
+
+/-- **Period frame of a generated model** (no assumption about what a pass writes: it follows from the statements).
+    After `solve_t(t, …)` — whatever its outcome — every cell that is neither the target `(lhs_i, t + k_i)` of one of
+    the model's statements nor an endogenous cell of period `t` (touched only when `offset ≠ 0`) holds what it held. -/
+theorem generated_model_frame (stmts : List (Assign σ C X)) (endoCell : List (Int → C))
+    (copy : σ → Int → Int → σ) (lags leads : Nat) (check : σ → Int → V) (allFinite : V → Bool)
+    (close : V → V → Bool) (zeroNF : V → V)
+    (hcopy : ∀ u c, (∀ e ∈ endoCell, e t ≠ c) → S.get (copy u t o.offset) c = S.get u c)
+    (w : World σ) (c : C)
+    (hstmt : ∀ a ∈ stmts, a.target t ≠ c) (hendo : o.offset ≠ 0 → ∀ e ∈ endoCell, e t ≠ c) :
+    S.get (solveT (generated S stmts endoCell copy lags leads check allFinite close zeroNF) o n t w).1.user c
+      = S.get w.user c := by
+  apply solveT_inv _ o t (fun u => S.get u c = S.get w.user c) _ n w rfl
+  constructor
+  · intro hoff u h
+    show S.get (copy u t o.offset) c = _
+    rw [hcopy u c (hendo hoff)]; exact h
+  · intro u h; exact h
+  · intro u k h
+    show S.get (runPass S t stmts u).1 c = _
+    rw [runPass_frame S t stmts u c hstmt]; exact h
+  · intro u k h; exact h
+
+/-! ### …and of a multi-period `solve()` -/
+
+/-- Anything every single-period solve of the listed periods preserves is preserved by the period loop of `solve()`,
+    whatever its outcome (completed, or stopped by the first exception). -/
+theorem solveList_inv {σ V : Type} (I : Interp σ V) (o : Opts) (n : Nat) (P : σ → Prop) :
+    ∀ (ps : List Nat), (∀ p ∈ ps, ∀ w : World σ, P w.user → P (solveT I o n (p : Int) w).1.user) →
+      ∀ (w : World σ) (acc : List Nat) (fs : List Bool), P w.user → P (solveList I o n ps w acc fs).1.user := by
+  intro ps
+  induction ps with
+  | nil => intro _ w acc fs hw; exact hw
+  | cons p rest ih =>
+    intro h w acc fs hw
+    unfold solveList
+    have hp := h p List.mem_cons_self w hw
+    rcases hs : solveT I o n (p : Int) w with ⟨w', r⟩
+    rw [hs] at hp
+    cases r with
+    | ret b => exact ih (fun q hq => h q (List.mem_cons_of_mem _ hq)) w' _ _ hp
+    | valueError => exact hp
+    | indexError => exact hp
+    | solutionError c => exact hp
+    | nonConvergence => exact hp
+    | badErrorsArg => exact hp
+
+/-- **Frame of `solve()` over a list of periods, for a generated model.**  A cell that is not the target of any of the
+    model's statements at any of the visited periods, nor (when `offset ≠ 0`) an endogenous cell of a visited period,
+    holds after `solve()` what it held before — whether the run completes or stops at the first failing period. -/
+theorem generated_solve_frame (stmts : List (Assign σ C X)) (endoCell : List (Int → C))
+    (copy : σ → Int → Int → σ) (lags leads : Nat) (check : σ → Int → V) (allFinite : V → Bool)
+    (close : V → V → Bool) (zeroNF : V → V) (ps : List Nat)
+    (hcopy : ∀ p ∈ ps, ∀ u c, (∀ e ∈ endoCell, e (p : Int) ≠ c) → S.get (copy u (p : Int) o.offset) c = S.get u c)
+    (w : World σ) (acc : List Nat) (fs : List Bool) (c : C)
+    (hstmt : ∀ p ∈ ps, ∀ a ∈ stmts, a.target (p : Int) ≠ c)
+    (hendo : o.offset ≠ 0 → ∀ p ∈ ps, ∀ e ∈ endoCell, e (p : Int) ≠ c) :
+    S.get (solveList (generated S stmts endoCell copy lags leads check allFinite close zeroNF) o n ps w acc fs).1.user c
+      = S.get w.user c := by
+  apply solveList_inv _ o n (fun u => S.get u c = S.get w.user c) ps _ w acc fs rfl
+  intro p hp w' hw'
+  rw [generated_model_frame S o n (p : Int) stmts endoCell copy lags leads check allFinite close zeroNF
+    (hcopy p hp) w' c (hstmt p hp) (fun ho => hendo ho p hp)]
+  exact hw'
+
 /-- `status` / `iterations` change at most at `t` (restated from the shared lemma). -/
 theorem series_frame (w : World σ) (j : Nat) (hj : pyIndex n t ≠ some j) :
     (solveT I o n t w).1.status[j]? = w.status[j]? ∧ (solveT I o n t w).1.iters[j]? = w.iters[j]? :=
@@ -191,5 +273,123 @@ example :
 
 example : feasibleB 5 1 1 0 = false ∧ feasibleB 5 1 1 1 = true ∧ feasibleB 5 1 1 (-1) = false
     ∧ feasibleB 5 1 1 (-2) = true := by decide
+
+/-! ### Non-vacuity (review): every hypothesis-carrying theorem instantiated at a concrete non-trivial instance -/
+
+private def exStmts : List (Assign (Nat → Nat) Nat Nat) :=
+  [⟨fun t => t.toNat, fun u _ => some (u 0 + 1)⟩, ⟨fun t => t.toNat + 1, fun u t => some (u t.toNat * 10)⟩]
+
+private theorem exStmts_targets (c : Nat) (h : ¬ (c = 2 ∨ c = 3)) : ∀ a ∈ exStmts, a.target 2 ≠ c := by
+  intro a ha e
+  unfold exStmts at ha
+  cases ha with
+  | head => exact h (Or.inl e.symm)
+  | tail _ ha =>
+    cases ha with
+    | head => exact h (Or.inr e.symm)
+    | tail _ ha => cases ha
+
+/-- `runPass_frame` (cell 7 is no target at `t = 2`, for every start state) and `runPass_last` (the second statement
+    stores `u[2] * 10` computed on the store left by the first). -/
+example (u : Nat → Nat) : funCells.get (runPass funCells 2 exStmts u).1 7 = funCells.get u 7 :=
+  runPass_frame funCells 2 exStmts u 7 (exStmts_targets 7 (by decide))
+example : funCells.get (runPass funCells 2 ([⟨fun t => t.toNat, fun u _ => some (u 0 + 1)⟩] ++
+      [⟨fun t => t.toNat + 1, fun u t => some (u t.toNat * 10)⟩]) (fun _ => 4)).1 3 = 50 :=
+  runPass_last funCells 2 [⟨fun t => t.toNat, fun u _ => some (u 0 + 1)⟩]
+    ⟨fun t => t.toNat + 1, fun u t => some (u t.toNat * 10)⟩ (fun _ => 4) 50 (by decide) (by decide)
+
+/-- `generated_model_frame` on the two-statement model above, with an offset copy of cell 2 from cell `2 + offset`: for
+    every world and every option set, `solve_t(2, …)` leaves cell 7 alone (targets at t = 2 are cells 2 and 3). -/
+example (o : Opts) (w : World (Nat → Nat)) :
+    funCells.get (solveT (generated (V := Nat) funCells exStmts [fun t => t.toNat]
+        (fun u t off => fun c => if c = t.toNat then u (t + off).toNat else u c) 0 0
+        (fun u t => u t.toNat) (fun _ => true) (fun a b => a == b) id) o 5 2 w).1.user 7 = funCells.get w.user 7 :=
+  generated_model_frame funCells o 5 2 exStmts [fun t => t.toNat] _ 0 0 _ _ _ _
+    (by intro u c h; have : c ≠ 2 := fun e => h _ List.mem_cons_self (by simp [e]); simp [funCells, this])
+    w 7 (exStmts_targets 7 (by decide)) (by intro _ e he; simp at he; subst he; decide)
+
+/-- `generated_solve_frame`: solving periods 1 and 2 of the two-statement model (targets: cells 1, 2 and 2, 3) leaves
+    cell 7 alone, for every world, option set and accumulated result. -/
+example (o : Opts) (w : World (Nat → Nat)) :
+    funCells.get (solveList (generated (V := Nat) funCells exStmts [fun t => t.toNat]
+        (fun u t off => fun c => if c = t.toNat then u (t + off).toNat else u c) 0 0
+        (fun u t => u t.toNat) (fun _ => true) (fun a b => a == b) id) o 5 [1, 2] w [] []).1.user 7
+      = funCells.get w.user 7 := by
+  apply generated_solve_frame funCells o 5 exStmts [fun t => t.toNat] _ 0 0 _ _ _ _ [1, 2]
+  · intro p hp u c h
+    have hc : c ≠ p := fun e => h _ List.mem_cons_self (by simp [e])
+    simp [funCells, hc]
+  · intro p hp a ha
+    have hp' : p = 1 ∨ p = 2 := by simpa using hp
+    unfold exStmts at ha
+    rcases hp' with rfl | rfl <;> (cases ha with
+      | head => decide
+      | tail _ ha => cases ha with
+        | head => decide
+        | tail _ ha => cases ha)
+  · intro _ p hp e he
+    have hp' : p = 1 ∨ p = 2 := by simpa using hp
+    simp at he; subst he
+    rcases hp' with rfl | rfl <;> decide
+
+/-- A model whose evaluation pass IS `runPass` of the two generated statements, with a real offset copy. -/
+private def exIC : Interp (Nat → Nat) Nat where
+  lags := 0
+  leads := 0
+  check u t := u t.toNat
+  allFinite _ := true
+  close a b := a == b
+  zeroNF v := v
+  copyOffset u t off := funCells.set u t.toNat (u (t + off).toNat)
+  before _ u _ := (u, false)
+  eval _ u t _ := runPass funCells t exStmts u
+  after _ u _ _ := (u, false)
+
+/-- `solveT_cells_frame` (offset −1: `K` = cell 2, `W` = cells 2, 3) and `solveT_cells_frame_no_offset`, composed
+    with `runPass_frame`: solving period 2 of 5 leaves cell 7 alone, from every world. -/
+example (w : World (Nat → Nat)) :
+    funCells.get (solveT exIC { offset := -1 } 5 2 w).1.user 7 = funCells.get w.user 7 :=
+  solveT_cells_frame funCells exIC { offset := -1 } 5 2 (fun c => c = 2 ∨ c = 3) (fun c => c = 2) w
+    (fun u c hK => funCells.get_set_other u 2 c _ hK) (fun _ _ => rfl)
+    (fun u _ c hW => runPass_frame funCells 2 exStmts u c (exStmts_targets c hW)) (fun _ _ _ => rfl) 7 (by decide)
+example (w : World (Nat → Nat)) : funCells.get (solveT exIC {} 5 2 w).1.user 7 = funCells.get w.user 7 :=
+  solveT_cells_frame_no_offset funCells exIC {} 5 2 (fun c => c = 2 ∨ c = 3) w rfl (fun _ _ => rfl)
+    (fun u _ c hW => runPass_frame funCells 2 exStmts u c (exStmts_targets c hW)) (fun _ _ _ => rfl) 7 (by decide)
+/-- … and the solve does run passes there (cell 3 becomes 50 from the all-4 state). -/
+example : (solveT exIC {} 5 2 ⟨fun _ => 4, List.replicate 5 .unsolved, List.replicate 5 (-1)⟩).1.user 3 = 50 := by
+  decide
+
+/-- `series_frame`: solving period 2 of 5 leaves `status[3]` / `iterations[3]` alone. -/
+example (w : World Nat) : (solveT C02.exI {} 5 2 w).1.status[3]? = w.status[3]? ∧
+    (solveT C02.exI {} 5 2 w).1.iters[3]? = w.iters[3]? :=
+  series_frame C02.exI {} 5 2 w 3 (by decide)
+
+private def exILag : Interp Unit Unit :=
+  { lags := 1, leads := 1, check := fun _ _ => (), allFinite := fun _ => true, close := fun _ _ => true,
+    zeroNF := id, copyOffset := fun u _ _ => u, before := fun _ u _ => (u, false),
+    eval := fun _ u _ _ => (u, false), after := fun _ u _ _ => (u, false) }
+
+/-- `rejected_unchanged`: each of its four disjuncts is satisfiable. -/
+example (w : World Nat) : (solveT C02.exI { minIter := 10, maxIter := 5 } 5 2 w).1 = w :=
+  rejected_unchanged C02.exI _ 5 2 w (Or.inl (by decide))
+example (w : World Unit) : (solveT exILag {} 5 (-1) w).1 = w :=
+  rejected_unchanged exILag _ 5 (-1) w (Or.inr (Or.inl ⟨by decide, by unfold Feasible; decide⟩))
+example (w : World Nat) : (solveT C02.exI { offset := 1 } 5 (-1) w).1 = w :=
+  rejected_unchanged C02.exI _ 5 (-1) w (Or.inr (Or.inr (Or.inl ⟨by decide, by decide, by decide⟩)))
+example : (solveT C06.exI { errors := .raise } 3 1 ⟨99, [.unsolved, .solved, .unsolved], [-1, 4, -1]⟩).1 =
+    ⟨99, [.unsolved, .solved, .unsolved], [-1, 4, -1]⟩ :=
+  rejected_unchanged C06.exI _ 3 1 _
+    (Or.inr (Or.inr (Or.inr ⟨by unfold Accepted Feasible; decide, rfl, rfl, by decide⟩)))
+
+/-- `reads_in_span` / `read_index_no_wrap`: `LAGS = LEADS = 1`, `n = 5`, `t = -2` (position 3), lead `+1` reads
+    position 4 (Python index `-1`), not a wrapped one. -/
+example : 0 ≤ cellPos 5 (-2) 1 ∧ cellPos 5 (-2) 1 < (5 : Nat) :=
+  reads_in_span 5 1 1 (-2) 1 (by decide) (by decide) (by decide)
+example : pyIndex 5 (-2 + 1) = some 4 :=
+  read_index_no_wrap 5 1 1 (-2) 1 (by decide) (by decide) (by decide) (by decide) (by decide)
+
+/-- `infeasible_period_rejected`: a lag of 1 at period 0 of 5 (would read index −1 = the LAST period). -/
+example (w : World Unit) : solveT exILag {} 5 0 w = (w, .indexError) :=
+  infeasible_period_rejected exILag {} 5 0 (-1) w (by decide) (by decide) (by decide) (by decide) (by decide)
 
 end Fsic.C04
